@@ -203,14 +203,12 @@ def coerceInt : JV → R
   | .int n => rangeChecked n (.int n)
   | .float t =>
     match pyFloat t with
-    | none => .error .internal                                   -- a JSON float's repr is always a float lexeme
+    | none => .error .coercion                                   -- not a float lexeme (cannot come from a JSON float)
     | some d =>
       match d.integral with
       | some k => rangeChecked k (.int k)                        -- numeric = int(f); numeric == f
-      | none =>
-        match d with
-        | .inf _ => .error .internal                             -- int(inf): OverflowError, not caught by ScalarType.parse
-        | _ => .error .coercion                                  -- numeric != f; int(nan): ValueError
+      | none => .error .coercion                                 -- numeric != f; int(inf) / int(nan): OverflowError /
+                                                                 -- ValueError caught (fix A6) → ValueError(INVALID_INT)
   | .null => .error .coercion
   | .str s =>
     if s == "" then .error .coercion
@@ -236,15 +234,22 @@ def floatGuardRejects : FCls → Bool
 def floatChecked (c : FCls) (result : PV) : R :=
   if floatGuardRejects c then .error .coercion else .ok result
 
+/-- `float(n)` of a Python int succeeds iff the correctly rounded double is finite: |n| < 2^1024 − 2^970
+    (otherwise `OverflowError: int too large to convert to float`) -/
+def intFitsDouble (n : Int) : Bool := decide (n.natAbs < 2 ^ 1024 - 2 ^ 970)
+
 /-- `coerce_float` on a JSON value -/
 def coerceFloat : JV → R
   | .null => .error .coercion
   | .bool b => floatChecked .finite (.float (.ofBool b))
-  | .int n => floatChecked .finite (.float (.ofInt n))
+  | .int n =>
+    if intFitsDouble n then floatChecked .finite (.float (.ofInt n))
+    else if floatCatchesOverflow then .error .coercion           -- `except OverflowError:` (fix A6)
+    else .error .internal
   | .float t =>
     match pyFloat t with
     | some d => floatChecked (clsOf d) (.float (.text t))
-    | none => .error .internal
+    | none => .error .coercion                                   -- not a float lexeme (cannot come from a JSON float)
   | .str s =>
     if s == "" then .error .coercion
     else match pyFloat s with
@@ -362,8 +367,9 @@ def parseLiteral (k : NamedT) (l : Lit) : R :=
       | .float, .float t =>                                          -- coerce_float("<text>")
         match pyFloat t with
         | some d => floatChecked (clsOf d) (.float (.text t))
-        | none => .error .internal
-      | .float, .int n => floatChecked .finite (.float (.ofInt n))  -- coerce_float("<digits>")
+        | none => .error .coercion
+      | .float, .int n =>                                           -- coerce_float("<digits>"): float(str) overflows to inf
+        floatChecked (if intFitsDouble n then .finite else .inf) (.float (.ofInt n))
       | .string, .str s => .ok (.str s)
       | .boolean, .bool b => .ok (.bool b)
       | .id, .str s => .ok (.str s)
@@ -557,6 +563,7 @@ def coerceVariable (reg : Reg) (fuel : Nat) (variables : List (String × JV)) (d
     | some v =>
       if v.isNull && d.type.isNonNull then .error .coercion
       else match coerceValue reg fuel d.type v with
+        | .error .fuel => .error .coercion        -- `except RecursionError:` (fix A7): nested too deeply = an invalid value
         | .error e => .error e
         | .ok pv => .ok (some pv)
 
